@@ -40,6 +40,8 @@ type pipeConn struct {
 	holdIf    func(w []byte) bool  // writes for which this holds block until release (a peer slow to accept them)
 	release   chan struct{}        // closed to release held writes
 	held      int                  // writes currently held
+	holdClose  bool                // Close blocks until release as well
+	heldCloses int                 // Close calls currently held
 	failWrite func(idx int) error // optional write failure
 }
 
@@ -128,11 +130,30 @@ func (p *pipeConn) Write(b []byte) (int, error) {
 
 func (p *pipeConn) Close() error {
 	p.mu.Lock()
+	if p.holdClose {
+		// the peer is slow to take the close as well: whoever closes the transport while writes are held (Conn.Close
+		// that lost the race for a channel's teardown) is parked until the release, so that the closer that performs the
+		// teardown always gets its packet out first - under load the transport would otherwise now and then be closed
+		// under the feet of a Channel.Close that is still on its way to the teardown write
+		p.heldCloses++
+		rel := p.release
+		p.cond.Broadcast()
+		p.mu.Unlock()
+		<-rel
+		p.mu.Lock()
+		p.heldCloses--
+	}
 	p.closed = true
 	p.closes++
 	p.cond.Broadcast()
 	p.mu.Unlock()
 	return nil
+}
+
+func (p *pipeConn) HeldCloses() int {
+	p.mu.Lock()
+	defer p.mu.Unlock()
+	return p.heldCloses
 }
 
 // Feed hands bytes to the client side (as the server's next bytes on the wire).
@@ -240,6 +261,7 @@ func (p *pipeConn) Release() {
 	p.mu.Lock()
 	p.holdFrom = -1
 	p.holdIf = nil
+	p.holdClose = false
 	rel := p.release
 	p.release = make(chan struct{})
 	p.mu.Unlock()
